@@ -148,13 +148,20 @@ pub fn canonical_diff_opts(a_img: &[u8], a: &Image, b_img: &[u8], b: &Image, opt
 
 pub fn run(rep: &mut Report, thorough: bool) {
     crate::util::install_quiet_panic_hook();
-    rep.rule = "histories of 2..5 dump requests on ONE writer under generated option sets, against the same quiescent target, with the blamed thread / principal address / crash context / target changed between requests through the public fields; after each request a fresh identically configured writer dumps the same target and the two images are compared in canonical form (modulo timestamp, RVAs and the running main thread); each reused image also goes through the strict decoder. distinct = hash(option set, history shape); non-trivial = >= 2 Ok dumps compared".into();
+    rep.rule = "histories of 2..5 dump requests on ONE writer under generated option sets, against the same quiescent target, with the blamed thread / principal address / crash context / target changed between requests through the public fields (only the changed fields are re-assigned), and with application memory configured on the writer that the target maps only after the first two (failing) requests; after each request a fresh identically configured writer dumps the same target and the two images are compared in canonical form (modulo timestamp, RVAs and the running main thread); each reused image also goes through the strict decoder. distinct = hash(option set, history shape); non-trivial = >= 2 Ok dumps compared".into();
     let mut rng = Rng::new(rep.seed.wrapping_mul(191_919));
     let ntargets = if thorough { 240 } else { 6 };
     let per_target = if thorough { 16 } else { 8 };
     for _ in 0..ntargets {
         let cfg = TargetCfg { sentinels: rng.range(1, 5) as usize, max_spinners: 0, heartbeats: 0, sleepers: 0, exiters: 0, names: true, regions: 3, elf_files: 1, fds: 3, stack_pages_max: 3, null_sp_threads: 1, big_region_pages: 0 };
-        let mut sc = match scen::build_target(&mut rng, &cfg) {
+        // a region the target maps only when asked: application memory configured on the writer
+        // that is unreadable for the first requests (they fail) and readable later
+        let mut late: (u64, u64) = (0, 0);
+        let mut sc = match scen::build_target_with(&mut rng, &cfg, |b, _| {
+            let addr = b.alloc(2, 9);
+            late = (addr, 2 * crate::tspec::PAGE);
+            b.spec.late_regions.push(crate::spec::Region { addr, len: late.1, prot: 6, kind: crate::spec::RegionKind::Anon, fill: crate::spec::Fill::Pattern, pokes: Vec::new(), unlink_after: false });
+        }) {
             Ok(s) => s,
             Err(e) => {
                 rep.inconclusive(format!("target did not start: {e}"));
@@ -168,12 +175,17 @@ pub fn run(rep: &mut Report, thorough: bool) {
         let sc2 = same_layout_other_images(&mut rng, &sc).or_else(|| scen::build_target(&mut rng, &TargetCfg { sentinels: 2, ..cfg.clone() }).ok());
         let _ = &mut sc;
         let volatile = vec![sc.target.pid as u32];
+        let mut late_mapped = false;
         for h in 0..per_target {
             let bits = rng.below(128) as u32;
             let knobs = OptKnobs::from_bits(bits, &mut rng);
             let o1 = scen::random_opts(&mut rng, &sc, &knobs);
-            let len = rng.range(2, 5) as usize;
-            let shape = h % 6; // 5: every request is preceded by a failed one; 0: same options; 1: blamed thread changes; 2: principal address unset later; 3: crash context removed later; 4: target swapped
+            let shape = if late_mapped { h % 6 } else if h == 2 { 6 } else { h % 6 }; // 6: configured application memory becomes readable only after the first (failing) requests; 5: every request is preceded by a failed one; 0: same options; 1: blamed thread changes; 2: principal address unset later; 3: crash context removed later; 4: target swapped
+            let mut o1 = o1;
+            if shape == 6 {
+                o1.app_memory.push((late.0 + 8 * rng.below(64), 1 + rng.below(4096)));
+            }
+            let len = if shape == 6 { 4 } else { rng.range(2, 5) as usize };
             let _g = dump::DUMP_LOCK.lock().unwrap_or_else(|e| e.into_inner());
             let (mut w, _guard) = dump::configure(&o1);
             let mut compared = 0;
@@ -199,12 +211,30 @@ pub fn run(rep: &mut Report, thorough: bool) {
                         }
                         _ => {}
                     }
-                    // bring the reused writer's public configuration in line with `ok`
-                    w.process_id = ok.pid;
-                    w.blamed_thread = ok.blamed;
-                    w.principal_mapping_address = ok.principal.map(|p| p as usize);
-                    w.crash_context = ok.crash.as_ref().map(|c| dump::build_crash_context(c, ok.pid));
-                    w.app_memory = ok.app_memory.iter().map(|(p, l)| minidump_writer::app_memory::AppMemory { ptr: *p as usize, length: *l as usize }).collect();
+                    // bring the reused writer's public configuration in line with `ok` — only the
+                    // fields this history shape changes: a caller who configured a writer once does
+                    // not re-assign its options before every request
+                    match shape {
+                        1 => {
+                            w.blamed_thread = ok.blamed;
+                            w.crash_context = None;
+                        }
+                        2 => w.principal_mapping_address = None,
+                        3 => w.crash_context = None,
+                        4 => {
+                            w.process_id = ok.pid;
+                            w.blamed_thread = ok.blamed;
+                            w.principal_mapping_address = ok.principal.map(|p| p as usize);
+                            w.crash_context = ok.crash.as_ref().map(|c| dump::build_crash_context(c, ok.pid));
+                            w.app_memory = ok.app_memory.iter().map(|(p, l)| minidump_writer::app_memory::AppMemory { ptr: *p as usize, length: *l as usize }).collect();
+                        }
+                        _ => {}
+                    }
+                }
+                if shape == 6 && k == 2 && !late_mapped {
+                    late_mapped = sc.target.map_late();
+                    history.push(format!("target maps the configured application region {:#x}+{} (ok={late_mapped})", late.0, late.1));
+                    rep.count("late_regions_mapped", late_mapped as u64);
                 }
                 // some requests FAIL part-way (destination I/O error): what they recorded must not
                 // leak into the next request either
@@ -277,6 +307,7 @@ pub fn run(rep: &mut Report, thorough: bool) {
         }
     }
     rep.require("image_pairs_compared", 20);
+    rep.require("late_regions_mapped", 1);
 }
 
 
